@@ -88,6 +88,8 @@ pub enum Step {
     PreSpawn { client: u8, cslot: u8 },
     DespawnLocal { client: u8, cslot: u8 },
     ClientFrame { client: u8, dt_ms: u32 },
+    /// Put the history marker on the client's copy of a slot (client-side game logic).
+    ClientMark { client: u8, slot: u8 },
     // ---- network
     Deliver { dir: Dir, client: u8, chan: Chan, pick: u8 },
     /// Deliver everything queued on the channel (in queue order).
@@ -148,6 +150,7 @@ impl Step {
             Step::PreSpawn { .. } => "prespawn",
             Step::DespawnLocal { .. } => "despawn_local",
             Step::ClientFrame { .. } => "client_frame",
+            Step::ClientMark { .. } => "client_mark",
             Step::Deliver { .. } => "deliver",
             Step::DeliverAll { .. } => "deliver_all",
             Step::Drop { .. } => "drop",
